@@ -29,7 +29,7 @@ func init() {
 	Register(&Prop{
 		ID:    "C18",
 		Title: "An inbox lists exactly the notifications sent to it, not blocked and not deleted",
-		Cases: func(t string) int { return tierN(t, 200, 4000) },
+		Cases: func(t string) int { return tierN(t, 200, 24000) },
 		Run:   runC18,
 		Rule: "case = one history of 25..55 steps among 4 accounts and 2 non-signing addresses: create (address / rns-name / case-variant / unknown / garbage targets, valid and invalid JSON, private bytes), same-block bursts of 2-3 sends from one sender to one recipient (via address and via name), " +
 			"block-senders (by address, by name, with unresolvable targets), delete (recipient exact / wrong key, sender, stranger, crafted From strings, phantom key), MsgRegisterName / MsgTransfer of rns names mid-run, block boundaries; " +
